@@ -271,7 +271,7 @@ theorem generated_calc_time_range :
     Generated.C12.calcTruncUnitDefs = ["intervalVal := storageInterval.Int64()"] ∧
     Generated.C12.rootMakePlanCalcCalls = 1 ∧
     Generated.C12.intermediateMakePlanCalcCalls = 1 ∧
-    Generated.C12.intermediateCalcGuarded = false ∧
+    Generated.C12.intermediateCalcGuarded = true ∧
     Generated.C12.calcQueryIntervalTable = ["diff < timeutil.OneHour => return queryInterval", "diff < 3*timeutil.OneHour => return Interval(10 * timeutil.OneSecond)", "diff < 6*timeutil.OneHour => return Interval(30 * timeutil.OneSecond)", "diff < 12*timeutil.OneHour => return Interval(timeutil.OneMinute)", "diff < timeutil.OneDay => return Interval(2 * timeutil.OneMinute)", "diff < 2*timeutil.OneDay => return Interval(5 * timeutil.OneMinute)", "diff < 7*timeutil.OneDay => return Interval(10 * timeutil.OneMinute)", "diff < timeutil.OneMonth => return Interval(timeutil.OneHour)", "diff < 2*timeutil.OneMonth => return Interval(4 * timeutil.OneHour)", "diff < 3*timeutil.OneMonth => return Interval(12 * timeutil.OneHour)", "default => return Interval(timeutil.OneDay)"] ∧
     Generated.C12.truncateSteps = ["return timestamp / interval * interval"] ∧
     Generated.C12.calIntervalRatioSteps = ["if storageInterval == 0 || queryInterval < storageInterval", "  return 1", "return int(queryInterval / storageInterval)"] := by
